@@ -186,7 +186,8 @@ C14_ContribPartition ==
        /\ \A g \in DOMAIN gs : gs[g].ins[1] = gs[g].outs[1]
 
 (* export: description tokens, shapes, bracket shapes/names, groups *)
-PartInfo(t, L) == [shape |-> Shape(t, L), brshape |-> BrShape(P1(t, L)), brnames |-> BrNames(P1(t, L))]
+PartInfo(t, L) == [shape |-> Shape(t, L), brshape |-> BrShape(P1(t, L)), brnames |-> BrNames(P1(t, L)),
+                   leaves |-> [i \in DOMAIN P1(t, L).lv |-> [n |-> P1(t, L).lv[i].n, br |-> P1(t, L).lv[i].br, len |-> P1(t, L).lv[i].len]]]
 CaseJson(c) ==
   [fam |-> c.fam, desc |-> DescToks(c),
    intoks |-> [i \in DOMAIN c.ins |-> ExprToks(c.ins[i])], outtoks |-> [i \in DOMAIN c.outs |-> ExprToks(c.outs[i])],
